@@ -58,6 +58,8 @@ def inner(cond, rank, d, a, b, i, M=sv):
         return M.mul(g((a, i)), M.conj(g((b, i))))
     acc = 0
     if rank == 3:
+        if not isinstance(d, int):      # symbolic number of components (spec side only symbolic: M is sv)
+            return Sum(0, d, lambda c: M.mul(g((a, i, c)), M.conj(g((b, i, c)))))
         for c in range(d):
             acc = M.add(acc, M.mul(g((a, i, c)), M.conj(g((b, i, c)))))
         return acc
@@ -150,15 +152,24 @@ def mentions(term, names=(), consts=()):
     return False
 
 
+def _sig_names(term, q):
+    """names of the Sigma-functions applied in `term` with an upper bound that depends on q (the ones an induction step over q unfolds)"""
+    return {e.decl().name() for e in top_sigma_apps(term) if mentions(e.arg(1), consts=[q])}
+
+
 def induction_chain(prefix, app, levels, hyps):
     """app: code-side Sigma application (outermost loop level).  levels: outermost -> innermost, each a dict
          name; var: fresh z3 Int constant standing for the loop variable of this level (free in the inner levels);
          rhs: function q -> z3 term, the spec-level value of  Sigma_{t<q} summand_level(t)
-       Level l+1's application is the summand of level l at its loop variable.  Returns (top, obligations):
-       obligations = base and step of one induction per level (the step of level l uses the claim of level l+1 as an
-       instance: var_l := q, bound := the bound the code has there); top = (qvar, formula) the outermost claim.
-       top is None if the code-side term does not have this nesting (then no lemma obligation is generated: they stay
-       UNDECIDED and the replay decides)."""
+       Level l+1's application is the summand of level l at its loop variable.  Returns (top, obligations).
+       Per level, with q a fresh constant (the induction variable) and claim(q): Sigma_{t<q} summand(t) == rhs(q):
+         :base     claim(lo)                                                    (empty-range axiom)
+         :summand  q >= lo  ->  summand(q) == rhs(q+1) - rhs(q)                  (innermost level: extensionality with the
+                   particle sum of the statement; other levels: the claim of level l+1 instantiated at var_l := q and the
+                   bound the code has there, plus unfold-last of the statement's own origin sum)
+         :step     q >= lo, claim(q), summand(q) == rhs(q+1) - rhs(q)  ->  claim(q+1)     (unfold-last of the code's sum)
+       top = (qvar, formula) is the outermost claim.  top is None if the code-side term does not have this nesting (then
+       no lemma obligation is generated: they stay UNDECIDED and the replay decides)."""
     apps = [app]
     for lv in levels[:-1]:
         b = body_at(apps[-1], lv["var"])
@@ -175,16 +186,24 @@ def induction_chain(prefix, app, levels, hyps):
 
         def claim(x, ap=ap, lv=lv):
             return with_hi(ap, x) == lv["rhs"](x)
-        base = z3.Implies(H, claim(lo))
+        inc = lv["rhs"](q + 1) - lv["rhs"](q)
+        S = body_at(ap, q) == inc
         inst = []
         if l + 1 < len(levels):
             q1, f1 = claims[l + 1]
-            nxt = apps[l + 1]
-            hi1 = z3.substitute(nxt.arg(1), (lv["var"], q))
+            hi1 = z3.substitute(apps[l + 1].arg(1), (lv["var"], q))
             inst.append(z3.substitute(z3.substitute(f1, (lv["var"], q)), (q1, hi1)))
-        step = z3.Implies(z3.And(H, q >= lo, claim(q)), claim(q + 1))
-        obligations.append((f"{prefix}:{lv['name']}:base", base, {}))
-        obligations.append((f"{prefix}:{lv['name']}:step", step, {"assume": inst}))
+            so = {"unfold_only": sorted(_sig_names(inc, q)), "ext": False, "rounds": 1}
+        elif top_sigma_apps(body_at(ap, q)):
+            so = {"unfold": False, "rounds": 3}     # extensionality: particle sum, then component sum (symbolic d)
+        else:
+            # the innermost summand is the per-particle product itself: unfold-last of the statement's particle sum
+            so = {"unfold_only": sorted(_sig_names(inc, q)), "ext": False, "rounds": 1}
+        none = {"unfold": False, "ext": False, "rounds": 1}
+        obligations.append((f"{prefix}:{lv['name']}:base", z3.Implies(H, claim(lo)), {"solver_opts": none}))
+        obligations.append((f"{prefix}:{lv['name']}:summand", z3.Implies(z3.And(H, q >= lo), S), {"assume": inst, "solver_opts": so}))
+        obligations.append((f"{prefix}:{lv['name']}:step", z3.Implies(z3.And(H, q >= lo, claim(q), S), claim(q + 1)),
+                            {"solver_opts": {"unfold_only": [ap.decl().name()], "ext": False, "rounds": 1}}))
         claims[l] = (q, z3.Implies(z3.And(H, q >= lo), claim(q)))
     return claims[0], obligations
 
@@ -206,6 +225,7 @@ class TimeCorr(Unit):
                 for r in (3, 4):
                     for d in (2, 3):
                         out.append(f"rank{r}/{dt}/{sp}/d={d}")
+        out += ["rank3/real/linear/d=sym", "rank3/complex/linear/d=sym", "rank3/real/log/d=sym", "rank3/complex/log/d=sym"]
         out += ["rank2/real/linear/csv", "rank3/complex/log/d=3/csv", "rank1/real/linear", "rank5/real/log/d=2"]
         return out
 
@@ -213,7 +233,7 @@ class TimeCorr(Unit):
     def parse(case):
         p = case.split("/")
         rank = int(p[0][4:])
-        d = next((int(x[2:]) for x in p if x.startswith("d=")), 3)
+        d = next(((x[2:] if x[2:] == "sym" else int(x[2:])) for x in p if x.startswith("d=")), 3)
         return rank, p[1], p[2], d, "csv" in p
 
     def setup(self, ctx, case):
@@ -221,6 +241,9 @@ class TimeCorr(Unit):
         T, N = ctx.int("T"), ctx.int("N")
         ctx.assume(T >= 1)
         ctx.assume(N >= 1)      # no additional restriction: N = 0 gives C(0) = 0, excluded below (the statement divides by C(0))
+        if d == "sym":
+            d = ctx.int("d")
+            ctx.assume(d >= 1)
         shape = (T, N) + (d,) * (rank - 2) if rank >= 2 else (T,)
         cond = ctx.array("A", shape, "float" if dtype == "real" else "complex", origin="argument condition")
         ts0, h = ctx.int("ts0"), ctx.int("h")
@@ -263,12 +286,12 @@ class TimeCorr(Unit):
             lv = ["n", "nn"] + (["i"] if rank == 4 else [])
             for what in ("lemma:origin-sum", "lemma:origin-count"):
                 for l in lv:
-                    names += [f"{what}:{l}:base", f"{what}:{l}:step"]
+                    names += [f"{what}:{l}:base", f"{what}:{l}:summand", f"{what}:{l}:step"]
             if rank == 4:
                 names.append("lemma:particle-count-cancels")
         elif rank == 4:
             for l in ("n", "i"):
-                names += [f"lemma:first-origin:{l}:base", f"lemma:first-origin:{l}:step"]
+                names += [f"lemma:first-origin:{l}:base", f"lemma:first-origin:{l}:summand", f"lemma:first-origin:{l}:step"]
         else:
             names.append("lemma:first-origin:particle-sum")
         names.append("lemma:lag-0-terms-are-the-k=0-instances")
